@@ -482,11 +482,12 @@ fn sample_of(ty: u8, unsigned: bool, salt: usize) -> PSem {
         0x0a => PSem::Date { ty, len: 4, y: 2000 + salt as u16, mo: 2, d: 3, h: 0, mi: 0, s: 0, us: 0 },
         0x0c | 0x07 => PSem::Date { ty, len: 11, y: 2001, mo: 2, d: 3, h: 4, mi: 5, s: 6, us: 7 + salt as u32 },
         0x0b => PSem::Time { len: 12, neg: false, days: 1, h: 2, m: 3, s: 4, us: 5 + salt as u32 },
+        0x06 => PSem::Null(0x06),
         t => PSem::Bytes(t, format!("v{}", salt).into_bytes()),
     }
 }
 
-const ALL_PARAM_TYPES: [u8; 25] = [0x01, 0x02, 0x0d, 0x03, 0x09, 0x08, 0x04, 0x05, 0x0a, 0x0c, 0x07, 0x0b, 0x00, 0x0f, 0x10, 0xf5, 0xf6, 0xf7, 0xf8, 0xf9, 0xfa, 0xfb, 0xfc, 0xfd, 0xfe];
+const ALL_PARAM_TYPES: [u8; 26] = [0x01, 0x02, 0x0d, 0x03, 0x09, 0x08, 0x04, 0x05, 0x0a, 0x0c, 0x07, 0x0b, 0x06, 0x00, 0x0f, 0x10, 0xf5, 0xf6, 0xf7, 0xf8, 0xf9, 0xfa, 0xfb, 0xfc, 0xfd, 0xfe];
 
 /// every type code x unsigned in three position classes of a 4-parameter statement
 struct Positions;
@@ -742,7 +743,7 @@ pub fn build(quick: bool) -> Check {
         Box::new(Rebinds { mode: 2 }),
         Box::new(Bitmaps {
             max_all: if quick { 8 } else { 12 },
-            big: vec![63, 64, 65, 255, 256, 300],
+            big: if quick { vec![63, 64, 65, 255, 256, 300, 65529, 65535] } else { vec![63, 64, 65, 255, 256, 300, 4096, 32767, 32768, 65527, 65528, 65529, 65530, 65534, 65535] },
         }),
         Box::new(AfterLongData),
         Box::new(ExecHeader),
@@ -753,7 +754,7 @@ pub fn build(quick: bool) -> Check {
     Check {
         id: "C08",
         level: "model_checking",
-        rule: "COM_STMT_EXECUTE parameter blocks built from semantic values by the independent encoder and run through the real run_on; the shim records (type, raw inner value) and applies the documented Into<T> for the corresponding Rust type under catch_unwind. Domains: TINY, SHORT, YEAR exhaustive (signed and unsigned); LONG/INT24/LONGLONG over every 2^k, 2^k+-1 and the bounds; FLOAT/DOUBLE lattices incl. subnormals and infinities; byte strings of every length 0..300 and the length-class edges for all 14 string-like type codes, 65535..65537 (and around 2^24 in thorough); every legal length form of DATE/DATETIME/TIMESTAMP (0,4,7,11; DATE with a time part raw only) and TIME (0,8,12) over boundary calendar values, every month with its first/28th/last days in five years, every hour x five day counts, microseconds of every decimal shape; negative TIME raw only; all 25 type codes x unsigned in four position classes next to every other type; consecutive executions of one statement binding every ordered pair of (type, unsigned) tables (one parameter: all 50^2; two parameters: all 12^4 over the integer codes, thorough: all 50^4 over every code; triples 12^3), values with the top bit set; parameter counts 0..17, 63, 64, 65, 255, 256, 300 with all 2^n NULL bitmaps for n <= 12 (8 in quick) and structured ones above; inline executions that follow an execution fed by 0..1.2 MB of long data; every value of the flags byte x iteration counts {0,1,2,2^32-1} x 5 handshake variants (among them one that mentions every capability the server did not offer). Oracle: exactly n parameters, type = bound code, raw value = encoded value, conversion = encoded value (zero dates and negative TIME have no chrono/Duration form and are checked raw).".into(),
+        rule: "COM_STMT_EXECUTE parameter blocks built from semantic values by the independent encoder and run through the real run_on; the shim records (type, raw inner value) and applies the documented Into<T> for the corresponding Rust type under catch_unwind. Domains: TINY, SHORT, YEAR exhaustive (signed and unsigned); LONG/INT24/LONGLONG over every 2^k, 2^k+-1 and the bounds; FLOAT/DOUBLE lattices incl. subnormals and infinities; byte strings of every length 0..300 and the length-class edges for all 14 string-like type codes, 65535..65537 (and around 2^24 in thorough); every legal length form of DATE/DATETIME/TIMESTAMP (0,4,7,11; DATE with a time part raw only) and TIME (0,8,12) over boundary calendar values, every month with its first/28th/last days in five years, every hour x five day counts, microseconds of every decimal shape; negative TIME raw only; all 26 type codes (MYSQL_TYPE_NULL among them) x unsigned in four position classes next to every other type; consecutive executions of one statement binding every ordered pair of (type, unsigned) tables (one parameter: all 52^2; two parameters: all 12^4 over the integer codes, thorough: all 52^4 over every code; triples 12^3), values with the top bit set; parameter counts 0..17, 63, 64, 65, 255, 256, 300, 65529, 65535 (thorough: more around 2^15 and 2^16) with all 2^n NULL bitmaps for n <= 12 (8 in quick) and structured ones above; inline executions that follow an execution fed by 0..1.2 MB of long data; every value of the flags byte x iteration counts {0,1,2,2^32-1} x 5 handshake variants (among them one that mentions every capability the server did not offer). Oracle: exactly n parameters, type = bound code, raw value = encoded value, conversion = encoded value (zero dates and negative TIME have no chrono/Duration form and are checked raw).".into(),
         assumptions: vec!["wider integer, float and string domains are covered at lattices".into()],
         bounds: json!({"all_bitmaps_up_to_params": if quick {8} else {12}}),
         exhaustive: true,
